@@ -10,6 +10,7 @@ import (
 	"encoding/json"
 	"fmt"
 	"math/rand"
+	"net"
 	"net/http"
 	"strconv"
 	"strings"
@@ -146,6 +147,8 @@ func c12Main(specBytes []byte) {
 				x.stalled()
 			case "dead":
 				x.dead()
+			case "silent":
+				x.silent()
 			}
 			x.res.Ms = time.Since(t0).Milliseconds()
 			Emit(x.res)
@@ -198,6 +201,9 @@ func (x *c12Exec) step(s c12Step) {
 }
 
 func c12Bound(action string) time.Duration {
+	if action == "open-silent" { // the websocket dialer's own handshake time-out is 45 s
+		return 60 * time.Second * time.Duration(c12Scale)
+	}
 	if action == "poll" || action == "poll-overlapping" {
 		return shimBoundPoll * time.Duration(c12Scale)
 	}
@@ -1586,4 +1592,55 @@ func (x *c12Exec) dead() {
 	}
 	x.b.forget(s.token)
 	x.probe(fmt.Sprintf("backend death with %d unpolled messages", n))
+}
+
+// ------------------------------------------------------------ silent backend
+
+// silent: the configured backend accepts the TCP connection and then says
+// nothing - the websocket upgrade is never answered. The open call still has
+// to be answered (the dialer gives up on the handshake after 45 s), and calls
+// on other endpoints are not held up meanwhile.
+func (x *c12Exec) silent() {
+	l, err := net.Listen("tcp", "127.0.0.1:0")
+	if err != nil {
+		x.res.Skipped++
+		return
+	}
+	defer l.Close()
+	var held []net.Conn
+	var hmu sync.Mutex
+	go func() {
+		for {
+			c, err := l.Accept()
+			if err != nil {
+				return
+			}
+			hmu.Lock()
+			held = append(held, c) // kept open, never read, never written
+			hmu.Unlock()
+		}
+	}()
+	defer func() {
+		hmu.Lock()
+		for _, c := range held {
+			c.Close()
+		}
+		hmu.Unlock()
+	}()
+	h := shimProxy(nil, l.Addr().String(), "shim", false, false)
+	p := shimStart(h, nil, "", shimReq("open", [][2]string{{"X-Websocket-Shim-Version", "1"}}, []byte("/ws/silent")))
+	// meanwhile the other endpoints answer
+	time.Sleep(200 * time.Millisecond)
+	saved := x.h
+	x.h = h
+	x.call("poll", "poll(unknown session, while an open waits for a silent backend)", "unknown", nil, shimIDBody("1"))
+	x.call("close", "close(unknown session, while an open waits for a silent backend)", "unknown", nil, shimIDBody("1"))
+	x.h = saved
+	a := p.wait(c12Bound("open-silent"))
+	if !a.Answered && a.Panic == "" {
+		c12NoteMiss("no-answer:open-silent")
+	}
+	x.step(c12Step{Op: "open-silent", Status: a.Status, Ms: a.ms()})
+	x.res.Statuses = fmt.Sprintf("open=%d after %dms", a.Status, a.ms())
+	x.judge("open-silent", "open against a backend that accepts the connection and never answers the websocket upgrade", "", a)
 }
